@@ -128,6 +128,7 @@ fn text_sink_ok(c: char, out: &[u8]) -> (bool, bool, bool) {
 //@ desc: replace_html_char(c) for EVERY Unicode scalar c (0x110000-2048 values, no bound): output bytes are XML-legal, carry no raw < & >, and decode back to c (or c is dropped and is NUL/unrepresentable)
 //@ encodes: fragment::text::replace_html_char
 #[kani::proof]
+#[kani::stub(std::io::_print, crate::kstub::noop_print)]
 #[kani::unwind(12)]
 fn o2_1_text_sink_char() {
     let c: char = kani::any();
@@ -147,6 +148,7 @@ fn o2_1_text_sink_char() {
 //@ desc: replace_html_char(c) never writes more than 10 bytes (discharges the assume of o2_1_text_sink_char), all scalars
 //@ encodes: fragment::text::replace_html_char
 #[kani::proof]
+#[kani::stub(std::io::_print, crate::kstub::noop_print)]
 fn o2_1_text_sink_len() {
     let c: char = kani::any();
     let s = replace_html_char(c);
@@ -160,6 +162,7 @@ fn o2_1_text_sink_len() {
 //@ desc: escape_html_text on every 1-char string equals replace_html_char(c) (char unrestricted): the text leaf is built from the per-character escaper and nothing else
 //@ encodes: fragment::text::escape_html_text, fragment::text::replace_html_char
 #[kani::proof]
+#[kani::stub(std::io::_print, crate::kstub::noop_print)]
 #[kani::unwind(12)]
 fn o2_2_escape_is_map1() {
     let c1: char = kani::any();
@@ -203,28 +206,31 @@ fn escape_is_map1(lo: u32, hi: u32) {
     std::mem::forget(input);
 }
 
-//@ harness: o2_2_escape_is_map1_bmp1 props=C02,C08 tier=quick obl=O2.2 timeout=900 mem=20
+//@ harness: o2_2_escape_is_map1_bmp1 props=C02,C08 tier=quick obl=O2.2 timeout=900 mem=14
 //@ desc: escape_html_text on every 1-char string with c < U+0800 (1- and 2-byte chars: all markup characters, C0/C1 controls, Latin) equals replace_html_char(c): the text leaf is built from the per-character escaper and nothing else
 //@ encodes: fragment::text::escape_html_text, fragment::text::replace_html_char
 #[kani::proof]
+#[kani::stub(std::io::_print, crate::kstub::noop_print)]
 #[kani::unwind(12)]
 fn o2_2_escape_is_map1_bmp1() {
     escape_is_map1(0, 0x7FF);
 }
 
-//@ harness: o2_2_escape_is_map1_bmp3 props=C02,C08 tier=quick obl=O2.2 timeout=900 mem=20
+//@ harness: o2_2_escape_is_map1_bmp3 props=C02,C08 tier=quick obl=O2.2 timeout=900 mem=14
 //@ desc: as o2_2_escape_is_map1_bmp1 for every 3-byte char U+0800..U+FFFF (incl. U+FFFE/U+FFFF and CJK)
 //@ encodes: fragment::text::escape_html_text, fragment::text::replace_html_char
 #[kani::proof]
+#[kani::stub(std::io::_print, crate::kstub::noop_print)]
 #[kani::unwind(12)]
 fn o2_2_escape_is_map1_bmp3() {
     escape_is_map1(0x800, 0xFFFF);
 }
 
-//@ harness: o2_2_escape_is_map1_astral props=C02,C08 tier=quick obl=O2.2 timeout=900 mem=20
+//@ harness: o2_2_escape_is_map1_astral props=C02,C08 tier=quick obl=O2.2 timeout=900 mem=22
 //@ desc: as o2_2_escape_is_map1_bmp1 for every 4-byte char U+10000..U+10FFFF
 //@ encodes: fragment::text::escape_html_text, fragment::text::replace_html_char
 #[kani::proof]
+#[kani::stub(std::io::_print, crate::kstub::noop_print)]
 #[kani::unwind(12)]
 fn o2_2_escape_is_map1_astral() {
     escape_is_map1(0x10000, 0x10FFFF);
@@ -252,6 +258,7 @@ fn one_char_text(x: i32, y: i32, c: char) -> CellText {
 //@ desc: two one-character texts (chars unrestricted, columns <= 1000, gap -4..4, rows symbolic): can_merge <=> same row and one starts at the display column where the other ends (width of a char = columns it occupies in the string buffer: 2 for double-width, else 1)
 //@ encodes: CellText::can_merge
 #[kani::proof]
+#[kani::stub(std::io::_print, crate::kstub::noop_print)]
 #[kani::unwind(8)]
 fn o4_1_can_merge_1x1() {
     let c1: char = kani::any();
@@ -283,6 +290,7 @@ fn o4_1_can_merge_1x1() {
 //@ desc: CellText::merge of two one-character texts on one row (chars unrestricted, gap -3..3, either call order): Some exactly when the texts occupy consecutive display columns, and the merged text starts at the smaller column of the same row; format! is stubbed (the concatenated content is NOT observed - outside the claim)
 //@ encodes: CellText::merge, CellText::can_merge
 #[kani::proof]
+#[kani::stub(std::io::_print, crate::kstub::noop_print)]
 #[kani::unwind(8)]
 #[kani::stub(alloc::fmt::format, crate::kstub::stub_format)]
 fn o4_2_merge_start() {
@@ -316,6 +324,7 @@ fn o4_2_merge_start() {
 //@ desc: Text::from(CellText) anchors the text strictly inside its start cell (cell coords 0..100000), content unchanged; absolute_position shifts the start cell only
 //@ encodes: From<CellText> for Text, Cell::q, CellText::absolute_position
 #[kani::proof]
+#[kani::stub(std::io::_print, crate::kstub::noop_print)]
 #[kani::unwind(8)]
 fn o4_3_anchor_in_cell() {
     let c: char = kani::any();
